@@ -4601,6 +4601,20 @@ fn oracle_c19u(fields: &[&str]) -> String {
     if !close(sec[0], c[0].to_degrees() * 3600.0) || !close(sec[1], c[1].to_degrees() * 3600.0) || !close(deg[0], c[0].to_degrees()) || !close(rad[0], c[0]) || !close(rad[1], c[1]) {
         return format!("oracle FAIL unit conversions of ({}, {}) disagree with the scalar conversions", v[0], v[1]);
     }
+    // `to_geo`: to degrees with the first two elements exchanged, nothing else (an angle beyond a half turn stays
+    // the angle it is); `Coor4D::geo` undoes it
+    let geo = c.to_geo();
+    if !close(geo[0], c[1].to_degrees()) || !close(geo[1], c[0].to_degrees()) || !same(geo[2], c[2]) || !same(geo[3], c[3]) {
+        return format!("oracle FAIL to_geo of ({}, {}, {}, {}) gives {:?}", v[0], v[1], v[2], v[3], geo.0);
+    }
+    let back = Coor4D::geo(geo[0], geo[1], geo[2], geo[3]);
+    if !close(back[0], c[0]) || !close(back[1], c[1]) {
+        return format!("oracle FAIL Coor4D::geo does not undo to_geo on ({}, {})", v[0], v[1]);
+    }
+    let g2 = Coor2D([v[0], v[1]]).to_geo();
+    if !same(g2[0], geo[0]) || !same(g2[1], geo[1]) {
+        return format!("oracle FAIL Coor2D::to_geo and Coor4D::to_geo disagree on ({}, {})", v[0], v[1]);
+    }
     let (lon, lat, h) = c.xyz_to_arcsec();
     if !same(lon, sec[0]) || !same(lat, sec[1]) || !same(h, sec[2]) {
         return format!("oracle FAIL to_arcsec and xyz_to_arcsec disagree on ({}, {}, {})", v[0], v[1], v[2]);
